@@ -198,10 +198,13 @@ func (c *choiceCasesResolver) getBestCaseName() string {
 	var bestCaseName string
 	bestCasePrio := int32(math.MaxInt32)
 	for caseName, cas := range c.cases {
-		// a case without any populated element (math.MaxInt32) can never be the best case
-		if cas.GetLowestPriorityValue() < bestCasePrio {
+		prio := cas.GetLowestPriorityValue()
+		// a case without any populated element (math.MaxInt32) can never be the best case.
+		// cases of equal priority (e.g. cases only populated by running values) are told apart by
+		// name, the result must not depend on the iteration order of the map
+		if prio < bestCasePrio || (prio == bestCasePrio && prio != math.MaxInt32 && caseName < bestCaseName) {
 			bestCaseName = caseName
-			bestCasePrio = cas.GetLowestPriorityValue()
+			bestCasePrio = prio
 		}
 	}
 	return bestCaseName
@@ -212,7 +215,7 @@ func (c *choiceCasesResolver) getOldBestCaseName() string {
 	bestCasePrio := int32(math.MaxInt32)
 	for caseName, cas := range c.cases {
 		lowestPrioOld := cas.GetLowestPriorityValueOld()
-		if lowestPrioOld < bestCasePrio {
+		if lowestPrioOld < bestCasePrio || (lowestPrioOld == bestCasePrio && lowestPrioOld != math.MaxInt32 && caseName < bestCaseName) {
 			bestCaseName = caseName
 			bestCasePrio = lowestPrioOld
 		}
